@@ -30,7 +30,8 @@ def lru_to_url(lru):
 
     # Building the url back
     scheme = stems_index.get("s", "")
-    auth = stems_index.get("u", "")
+    u = stems_index.get("u")
+    auth = u or ""
 
     w = stems_index.get("w")
 
@@ -39,7 +40,7 @@ def lru_to_url(lru):
 
     netloc = ""
 
-    if auth:
+    if u is not None or w is not None:
         netloc = auth + "@"
 
     netloc += stems_index.get("h", "")
